@@ -8,7 +8,7 @@ CONSTANTS
   TF = "t22c"
   PG = "p2s"
   TG = "t22c"
-  LAYOUTS = {"dfs", "hole", "low"}
+  LAYOUTS = {"dfs", "low"}
   EMIT = TRUE
 INVARIANTS LawReduce ResultWellFormed
 ACTION_CONSTRAINT Emit
